@@ -89,6 +89,9 @@ class FieldDef:
             type_ = TypeDefinition.Definitions[self.type].__name__
             hint = TypeDefinition.Definitions[self.type].hint
 
+        is_fixed_len_str = self.type in ['str_ascii_n', 'str_iso-8859-1_n']
+        type_ = f'{type_}(length={self.length})' if is_fixed_len_str else type_
+
         endian = 'uint_2_be' if self.endian == 'big' else 'uint_2'
         endian = TypeDefinition.Definitions[endian].__name__
 
@@ -98,9 +101,6 @@ class FieldDef:
             if self.array == 'double':
                 type_ = f'Array({type_}, {endian})'
                 hint = f'list[{hint}]'
-
-        is_fixed_len_str = self.type in ['str_ascii_n', 'str_iso-8859-1_n']
-        type_ = f'{type_}(length={self.length})' if is_fixed_len_str else type_
 
         context['type'] = type_
         context['hint'] = hint
